@@ -28,31 +28,31 @@ CHECKS = {
          "Trusts the independent spec reader (cross-checked on hand-made vectors in the self-test) and SimFS; minishard_bits <= 10."),
  "C05": ("exploration",
          "deterministic simulation: the sharded writer as a reorder buffer -- same chunk set under K seeded arrival orders (all permutations for small sets in thorough) x both buffering strategies on fresh SimFS instances; reference-map read-back through a fresh accessor and byte-identity of the shard trees",
-         "Seeded search over arrival orders and subsets against a reference map; trees of all orders/strategies compared byte for byte; never-stored positions must not yield data. Exhaustive over permutations only for sets <= 6 chunks (thorough). Sampling otherwise.",
+         "Seeded search over arrival orders and subsets against a reference map; trees of all orders/strategies compared byte for byte; never-stored positions must not yield data; variants: a second scale with the same shard numbers written interleaved, a second store/close session on the same accessor, writers that rely on the exit handler (simulated process with TemporaryDirectory finalizer ordering), payloads above 64 KiB and minishards above 1 MiB. Exhaustive over permutations only for sets <= 6 chunks (thorough). Sampling otherwise.",
          "Trusts SimFS (incl. simulated temp files of the on-disk strategy); reads only after close(); each chunk stored once."),
  "C18": ("fault_enumeration",
          "deterministic simulation with fault injection: per sampled scenario, every raw I/O call of the operation is failed with each plausible errno and interrupted before / after / torn inside (single faults enumerated exhaustively, 2-3 fault sequences and disk-full budgets seeded in thorough); a fresh reader process judges the surviving state",
-         "Exhaustive over single faults and single crash points of each sampled scenario (accessor kind x layout x encoding x operation); scenarios themselves are sampled. The oracle is the statement's own trichotomy (error class / effect in place / earlier data unchanged; after interruption complete, absent or detectably invalid).",
+         "Exhaustive over single faults and single crash points (before / after / torn inside each raw I/O call; every fault kind on every HTTP request) of each sampled scenario (file, sharded, HTTP and sharded-HTTP accessors x layout x encoding x operation incl. naturally refused stores and the pyramid driver); scenarios themselves are sampled; thorough adds seeded 2-3 fault sequences and disk-full budgets. The oracle is the statement's own trichotomy (error class / effect in place / earlier data unchanged; after interruption complete, absent or detectably invalid) plus same-handle retries: a retried close() that returns normally must have everything in place, a failure that left no trace must not poison a stateless handle, an accessor built fault-free must serve the request again once the faults stop.",
          "Trusts SimFS's process-interruption durability model (completed raw writes durable, user-space buffers lost; real io.Buffered*/GzipFile above the seam) and the fresh-reader oracle; power-loss reordering out of scope."),
  "C03": ("exploration",
          "deterministic simulation: seeded write/read/close histories (valid and off-grid writes, same or fresh handle) through the real PrecomputedIO + file and sharded accessors on SimFS, refinement against an array model",
-         "Seeded search over infos (5 data types, channels, multi-scale, 1-2 chunk sizes, raw / compressed_segmentation incl. non-cubic blocks / JPEG) x accessor kinds and options x operation histories; every read compared with the model (exact for lossless, calibrated bound for JPEG ramps); off-grid writes must raise and leave the tree unchanged. Sampling, not proof.",
+         "Seeded search over infos (5 data types, channels, multi-scale, 1-2 chunk sizes, raw / compressed_segmentation incl. non-cubic blocks / JPEG) x accessor kinds and options x operation histories; written arrays are presented C-ordered, Fortran-ordered, big-endian, strided or read-only, some with bytes that look like gzip/JPEG files; every read compared with the model (exact for lossless, calibrated bound for JPEG ramps) and re-compared at the end of the history (results must not alias); off-grid writes (12 classes) must raise and leave the tree unchanged. Sampling, not proof.",
          "Trusts SimFS, the independent on-grid predicate in checks/c03.py and the JPEG tolerance calibration (max error 13 measured over the ramp family, threshold 52)."),
  "C10": ("exploration",
          "deterministic simulation with storage-corruption faults: a valid chunk written by the real writer on SimFS, its stored payload corrupted (torn, stale tail, bit flips, lost sector, misdirected block, random replacement, targeted header-field edits) between write and a fresh read; outcome oracle array-of-exact-shape | InvalidFormatError, 5 s watchdog",
-         "Seeded search over encodings x data types x channels x shapes x block sizes x label distributions x storage kinds and 12-40 corruptions per valid chunk. Sampling of an exponential byte-string space, biased to format boundaries and header fields.",
+         "Seeded search over encodings x data types x channels x shapes x block sizes x label distributions x storage kinds and 12-40 corruptions per valid chunk (incl. whole payloads of another shape and well-formed images of other containers/pixel types); valid data is never rejected is checked on the package encoder output and on a second valid layout (shared table prefix). Sampling of an exponential byte-string space, biased to format boundaries and header fields; CPU-time watchdog for hangs.",
          "Trusts the corruption generators' format knowledge (cseg header layout, JPEG SOF segment) only for *placing* edits; the oracle itself needs no format knowledge. Borderline applicability is discussed in DESIGN.md 2.2."),
  "C14": ("exploration",
          "deterministic simulation with fault injection: real requests/urllib3 stack on a simulated transport adapter and static-server model (documented nginx rules, Range, zero-range policy seeded); datasets produced by the real writers on SimFS; per-request seeded fault sequences (4xx/5xx, connection reset, timeout, dropped body, short / over-long / ignored range); equivalence with local reading",
-         "Seeded search over dataset kinds, sharding triples, subsets, URL spellings and server policies; class 1 compares every position over HTTP with the local accessor, class 2 injects 1-3 faults per fetch on learned request ordinals and requires exact bytes or an error of the stated class. Sampling, not proof.",
+         "Seeded search over dataset kinds (plain flat/deep, sharded, legacy, mixed layouts, two scales), sharding triples, subsets, URL spellings and server policies; class 1 compares every position over HTTP with the local accessor, class 2 injects 1-3 faults per fetch on learned request ordinals (accessor built inside the fault window, built fault-free just before, or long-lived) and requires exact bytes or an error of the stated class, correct dispatch when info itself was fetched intact, no wrong data from later reads on the same accessor, and -- for accessors built fault-free -- that the stored chunk is readable again once the faults stop. Sampling, not proof.",
          "Trusts the server model as a faithful reading of docs/serving-data.rst and RFC 7233, and the real requests/urllib3 response handling above the adapter seam. TLS, proxies, redirects, chunked transfer and stalls are not modelled."),
  "C13": ("exploration",
          "deterministic simulation: the real convert-chunks main() run as a simulated process (argparse, exit status, atexit handlers run LIFO by the simulator, or killed before them) from local or simulated-HTTP sources into file / sharded destinations on SimFS; a new simulated process decodes the destination and compares with the source model",
-         "Seeded search over source x destination kinds, encodings, widening dtype pairs, sharding triples, --copy-info, multi-scale chunk sizes; relational oracle (destination == source after the documented conversion, source tree hash unchanged, exit status 0). The dependence on the exit handler is pinned by the kill class in thorough. Sampling, not proof.",
+         "Seeded search over source x destination kinds (local, sharded, HTTP flat/deep/sharded/legacy), encodings, widening dtype pairs, sharding triples, --copy-info, multi-scale chunk sizes; relational oracle (destination == source after the documented conversion, source tree hash unchanged, exit status 0); two library calls in one process; thorough: kill before the exit handlers (destination never wrong) followed by a complete re-run (exit 0 => destination correct), >1 MiB minishards. Sampling, not proof.",
          "Trusts SimProc's model of CPython exit semantics (handlers LIFO, their exceptions ignored for the status), SimFS and SimHTTP."),
  "C19": ("exploration",
          "deterministic simulation: seeded programs (sequences of the real CLI main() functions with repeated data-writing steps), each command a simulated process with exit handlers on a shared SimFS, versus the all-in-one command; relational oracles over the decoded datasets",
-         "Seeded search over synthetic volumes and option sets; oracles: info and decoded voxels equal between all-in-one and step-by-step, decoded contents unchanged by repeating a step, success exit implies every requested file/chunk exists and decodes. A non-zero exit alone is not judged. Sampling, not proof.",
+         "Seeded search over synthetic volumes and option sets (encoding, type, method, outside value, input min/max, header scaling, mmap, layout, sharding); oracles: info and decoded voxels equal between all-in-one and step-by-step, decoded contents unchanged by repeating a step, success exit implies every requested file/chunk exists and decodes (incl. convert-chunks into a destination declaring more scales); thorough: one data-writing command killed before its exit handlers. A non-zero exit alone is not judged. Sampling, not proof.",
          "Trusts SimProc/SimFS; input NIfTI volumes are real files (nibabel) and are not fault-injected; mesh and slice commands are not part of the generated programs."),
  "C06": ("exploration",
          "deterministic simulation of an environment input: the real pyramid driver on SimFS with poisoned np.empty -- every computation runs twice under two different poison bytes (difference => unwritten voxel) and each level is compared with the global downscale of the previous level; infos come from the real scale generator; every transition also exercised on its own",
